@@ -4,11 +4,12 @@
 set -u
 HERE="$(cd "$(dirname "$0")/.." && pwd)"
 . "$HERE/scripts/env.sh"
-mkdir -p "$HERE/.build"
-exec 9>"$HERE/.build/lock"
+B="${VERIF_BUILD_DIR:-$HERE/.build}"
+mkdir -p "$B"
+exec 9>"$B/lock"
 flock 9
 PKG="$REPO_ROOT/src/hermes2go"
-OV="$HERE/.build/overlay.json"
+OV="$B/overlay.json"
 python3 - "$HERE/sim" "$PKG" > "$OV" <<'PY'
 import json,os,sys
 sim,pkg=sys.argv[1],sys.argv[2]
@@ -19,10 +20,10 @@ for f in sorted(os.listdir(sim)):
 print(json.dumps({"Replace":rep}))
 PY
 cd "$PKG" || exit 2
-$GO126 test -c -tags verif -overlay "$OV" -o "$HERE/.build/worker.new" . || exit 2
-mv "$HERE/.build/worker.new" "$HERE/.build/worker"
+$GO126 test -c -tags verif -overlay "$OV" -o "$B/worker.new" . || exit 2
+mv "$B/worker.new" "$B/worker"
 if [ "${VERIF_BUILD_RACE:-1}" = 1 ]; then
-  CGO_ENABLED=1 $GO126 test -c -race -tags verif -overlay "$OV" -o "$HERE/.build/worker-race.new" . || exit 2
-  mv "$HERE/.build/worker-race.new" "$HERE/.build/worker-race"
+  CGO_ENABLED=1 $GO126 test -c -race -tags verif -overlay "$OV" -o "$B/worker-race.new" . || exit 2
+  mv "$B/worker-race.new" "$B/worker-race"
 fi
 exit 0
